@@ -517,7 +517,8 @@ LoopOnIterator:
 
 		if userRelation == "" {
 			for _, f := range req.GetUserFilters() {
-				if f.GetType() == userObjectType {
+				// A filter with a relation (e.g. group#member) only matches usersets, never a plain object.
+				if f.GetType() == userObjectType && f.GetRelation() == "" {
 					user := tuple.StringToUserProto(tuple.BuildObject(userObjectType, userObjectID))
 
 					concurrency.TrySendThroughChannel(ctx, foundUser{
